@@ -657,6 +657,50 @@ pub fn run(tier: Tier) -> i32 {
             extra: vec![("written".into(), J::u(written))],
         });
     }
+    // mostly-zero arrays (zero tails, zero fronts, long zero runs, all zeros): the file holds exactly
+    // the declared number of values
+    {
+        let mut sj: Vec<(Vec<usize>, usize)> = Vec::new();
+        for shape in [vec![70usize], vec![129], vec![600], vec![1100], vec![23, 23], vec![9, 9, 9], vec![64], vec![3, 5]] {
+            for kind in 0..5usize {
+                sj.push((shape.clone(), kind));
+            }
+        }
+        let res = par_each(&sj, |(shape, kind)| {
+            let cells: usize = shape.iter().product();
+            let values: Vec<f64> = (0..cells)
+                .map(|f| match kind {
+                    0 => if f < 3 { f as f64 + 1.0 } else { 0.0 },
+                    1 => if f + 1 == cells { 2.5 } else { 0.0 },
+                    2 => if f % 600 == 599 || f == 0 { f as f64 + 0.5 } else { 0.0 },
+                    3 => 0.0,
+                    _ => if f % 2 == 0 { 0.0 } else { -0.0 },
+                })
+                .collect();
+            let case = J::obj([("kind", J::s("c15-sparse-writer")), ("shape", J::usizes(shape)), ("filling", J::u(*kind))]);
+            let r = catch(|| {
+                let arr = Array::new(values.clone(), shape.to_vec()).expect("shape fits");
+                let mut out = Vec::new();
+                arr.write_npy(&mut out).map(|_| out).map_err(|e| e.to_string())
+            });
+            match r {
+                Ok(Ok(bytes)) => check_written(&bytes, shape, &values).err().map(|e| (format!("C15|lib|writer-nonconforming-on-sparse-array|{}", norm_msg(&e)), format!("write_npy of a mostly-zero array of shape {shape:?} (filling {kind}): {e}; {} bytes written", bytes.len()), case)),
+                Ok(Err(e)) => Some(("C15|lib|writer-error".into(), format!("write_npy of shape {shape:?} failed: {e}"), case)),
+                Err(p) => Some((format!("C15|lib|writer-panic|{}", norm_msg(&p)), format!("write_npy of shape {shape:?} panicked: {p}"), case)),
+            }
+        });
+        for v in res.into_iter().flatten() {
+            rep.violation(v.0, v.1, v.2);
+        }
+        rep.part(Part {
+            name: "lib: writer on mostly-zero arrays".into(),
+            evaluations: sj.len() as u64,
+            nontrivial: sj.len() as u64,
+            note: "eight shapes of 15 .. 1 100 values x five fillings (a zero tail, a zero front, long zero runs, all zeros, alternating +0 / -0): a valid file holding exactly the declared values, bit for bit".into(),
+            exhaustive: true,
+            extra: vec![],
+        });
+    }
     rep.part(Part {
         name: "lib: writer conformance".into(),
         evaluations: fam.len() as u64,
